@@ -6,6 +6,30 @@ VERIF = os.path.dirname(os.path.abspath(__file__))
 
 # id -> dict(level, technique, text, note, design, engine)   (only properties whose check exists)
 CHECKS = {
+    "C01": dict(
+        level="exploration",
+        engine="mc-stm",
+        technique="bounded exhaustive input enumeration with structural mutation (d<=1 quick, d<=2 thorough) over three wire encodings, with an independent reference oracle (blst, Blake2b dense mapping, exact interval lottery, set membership)",
+        text="Every aggregate and single signature reachable from honest values of a 21/23-configuration lattice (1-4 parties, equal / 1:1000 / 1:2^40 stake splits, three parameter sets, two messages) by <=1 (quick) / <=2 (thorough) structural mutations (index sets and boundary indices m-1, m, m+1, 2^64-1, slot labels, claimed key/stake incl. an adversary key with a genuine signature, sigma substitutions, every batch-path value and index edit, list swap/dup/drop/split), and all ordered pairs/triples of a pool of accepted, rejected and sigma-shifted aggregates, are decoded from JSON, CBOR and the legacy layout and verified by the real code; each acceptance is checked against an independent statement: indices < m, >= k distinct, every (key, stake) in the harness-side registration, every sigma a valid BLS signature of msg||root, every index won under the exact lottery, batch accepted => each member accepted alone.",
+        note="Trusted: blst, blake2, num-bigint, the mc-ref lottery. Registration membership is decided from the harness's own list, the root re-derived by an independent tree. Draws within 2^-44 of the threshold are not judged. N<=4, m<=8, batches <=3. Overflow in batch-path index arithmetic panics under the harness's overflow-checks and counts as rejection. Rejected d=2 candidates are judged in JSON form only. snark variants are feature-gated off.",
+        design="§4 C01",
+    ),
+    "C02": dict(
+        level="exploration",
+        engine="mc-stm",
+        technique="exhaustive enumeration of all sequences (every multiset in every order) of single signatures up to a length bound, with a one-insertion monotonicity table, on the real clerk and mithril-common MultiSigner",
+        text="All sequences of length <=2/<=3 over the full alphabet (9-22 signatures per configuration: honest, first-half / second-half / single-index restrictions, an index listed twice, signatures on the other message, relabelled to another registered slot, unregistered slot, sigma+G, extra lost index, extra index m) and <=4/<=5 over its 8-element core are aggregated by the real Clerk, and for 4/7 configurations by mithril-common's MultiSigner on certified signers; every produced aggregate is verified after travelling through its encodings. Completeness (valid signatures covering >= k indices => aggregation succeeds and verifies) and one-insertion monotonicity (success(s) => success(s') and verify for every one-element insertion) are decided against a reference single-signature check.",
+        note="L<=5, N<=4. Element validity uses blst, blake2 and the exact lottery and the slot->party map from registration. The error kind below quorum is recorded, not judged. The aggregator's MultiSignerImpl::create_multi_signature mapping is exercised by the aggregator checks (C14/C16).",
+        design="§4 C02",
+    ),
+    "C03": dict(
+        level="model_checking",
+        engine="mc-chaincert",
+        technique="bounded exhaustive explicit-state exploration by replay on the real verifiers: every (certificate, provider answer) pair of a finite pool through verify_certificate; every history of <=3 client verify_chain calls with bounded provider deviations over all reachable contents of the real cache",
+        text="A pool of four chains (three honest incl. one with identical signers in every epoch and one with per-epoch parameters; one adversarial with its own genesis and STM keys) plus all their structural mutations (re-targeted / dropped / dangling / self links, epoch +-1 kept / rehashed / re-signed, swapped key / parameters / signature / signed statement, altered or removed next-key / next-parameter / epoch commitments in four signing variants): 1152 (quick) / 2582 (thorough) certificates. Every (certificate, answer) pair of the answer sets is executed through mithril-common's verify_certificate, verify_certificate_chain runs from every member, and every history of <=2 (quick) / <=3 (thorough) mithril-client verify_chain calls with <=1-2 provider deviations is executed over the real in-memory cache. Each accepted step, chain and call is judged against an independent field-by-field restatement of C03 (valid link = same epoch & same key/parameters, or p.epoch+1 == c.epoch & committed next key/parameters; valid genesis; acyclic; hash-linked chain valid to genesis).",
+        note="Trusted base: certificate hash and protocol-message digest computation (C04), STM aggregate-signature verification (C01), Ed25519. <=5 epochs, one adversarial key set, Concatenation proofs only. Cache states are re-created through the public cache API and validated by replaying the first and last history at each depth. Observation not judged (the property's wording admits it): a genesis certificate's own aggregate_verification_key field is not covered by the genesis signature.",
+        design="§4 C03",
+    ),
     "C04": dict(
         level="exploration",
         engine="mc-common",
@@ -29,6 +53,14 @@ CHECKS = {
         text="Every (phi_f, total, stake, draw) of an explicit lattice (0.43M cases quick, 4.2M thorough: 14-28 phi_f values incl. next to 0 and 1, every stake of totals <= 10-12 plus totals 1000, 45e15, 2^64-1, draws 0, 1, 2^512-1, a uniform grid and T -/+ j*2^s from one unit in the 512th bit out past the band edge around the exact threshold T of every stake) is decided by the working tree's is_lottery_won and compared with an independent fixed-point interval evaluation of 1-(1-phi_f)^(stake/total) whose bracket is below 2^-560; stake-ascending and draw-descending chains are judged on the implementation's own decisions, determinism by re-evaluation, and signer/verifier agreement index by index through the public API. The domain is a continuum, so the claim holds for the lattice, which is concentrated where a wrong bound changes outcomes.",
         note="Trusted: mc-ref::lottery (unit-tested), num-bigint, blake2. Only the num-integer back end is compiled (rug not available offline). Band 2^-44*min(1, 2*max(w, x)), >= 256x the error implied by the f64 ln in the implementation. phi_f = 1 with stake = 0 is contradictory in the property and excluded.",
         design="§4 C08",
+    ),
+    "C09": dict(
+        level="exploration",
+        engine="mc-merkle",
+        technique="bounded exhaustive input enumeration (all tree sizes x all index subsets x all single and paired structural mutations of every proof component, plus designed forgery families) on the real code, with source inclusion for the crate-private STM tree",
+        text="Every tree size up to 12 (quick) / 16 (thorough) and every non-empty index subset is proven by the real generators and checked by the real verifiers for the STM registration tree (working-tree source compiled by inclusion with byte-string leaves, and end-to-end through AggregateSignature::verify with the real leaves), MKTree/MKProof, and nested MKMap/MKMapProof/MkSetProof; every single (thorough: every pair of) mutation of every proof component of the smaller sizes (leaf replaced by member / outsider / padding or inner-node pre-image, every position value, claims dropped / duplicated / swapped, every path node dropped / duplicated / replaced by every tree node, size and root fields, sub-proofs detached / re-keyed / replaced, key||sub-root boundary shifts) plus systematic forgery families is judged by 'accepted => every stated (position/key, item) is literally committed; contains/leaves/MkSetProof::verify on x => x is a committed leaf'. 1.9M (quick) / 44M (thorough) cases.",
+        note="Blake2 collision and pre-image resistance assumed; hash material limited to values occurring in the structure. Proof internals are reached via the real bincode and JSON wire formats through mirror structs (a layout change surfaces as a rejected honest proof or a machinery error, not a silent pass). Overflow checks are on. Sizes above 16 are covered by fixed subsets only. Map-level entries count as committed leaves.",
+        design="§4 C09",
     ),
     "C14": dict(
         level="model_checking",
@@ -61,6 +93,14 @@ CHECKS = {
         text="Every (tip, security parameter, step) triple of a dense lattice (quick: tip<=400, sec<=80, step<=95; thorough: tip<=1500, sec<=200, step<=240) and every combination of u64 boundary values is pushed through the real SignedEntityConfig for both block-number entities and through a config rebuilt from its JSON form; margin, monotonicity over all successive tips, whole-step moves, block-range alignment and agreement are checked on every one. The property is a pure function of three integers, so a complete sweep of the small scope plus boundaries is the right level.",
         note="Range length 15 is taken as the protocol constant. Panics caused only by overflow-checks for operands above 2^63 are reported as observations.",
         design="§4 C17",
+    ),
+    "C18": dict(
+        level="model_checking",
+        engine="mc-pool",
+        technique="bounded exhaustive history enumeration by replay on the real crate + loom controlled-scheduler exploration (DPOR, preemption bound 2 quick / 3 thorough) of the same source file compiled against loom::sync",
+        text="Two complementary bounded-exhaustive parts on the real pool code. Every operation sequence (acquire, the three ways of giving back, the refresher's individual pool calls in the order compute_cache performs them - extracted from prover.rs at build time -, third-party give-back, reset) up to length 7 (quick) / 8-9 (thorough) on pools of size 1-2 / 1-3 is executed on the crate and judged against a reference that tracks the birth generation of every resource (224k / 3.9M histories). Every thread interleaving up to 2 / 3 preemptions of resource_pool.rs compiled against loom::sync (only the Mutex/Condvar import is rewritten, exact-match-or-fail) is executed for proof computations overlapping a refresh, concurrent give-backs, and waiters on an empty pool (48 / 67 scenarios, 58k / 2M executions). Within those bounds no execution serves or re-admits a superseded resource after a refresh completed, overfills the pool, or loses a wake-up.",
+        note="Trusted: loom's model of Mutex/Condvar and its bounded search. loom never times out, so the time-out branch is exercised only sequentially, and concurrently a deadlock stands for a lost wake-up. Memory orderings are moot (mutexes only). A resource handed out while a refresh is still in progress may be of the previous generation (weakest reading). One refresher at a time.",
+        design="§4 C18",
     ),
 }
 
